@@ -183,11 +183,24 @@ class File(Suite):
             if not any(D):
                 D[0] = [[names[0]]]
             # how the fresh file is designated: absolute path, bare name in the current directory, ./name, sub-directory/name
-            cases.append({"D": D, "how": rng.choice(["abs", "abs", "bare", "dot", "sub"])})
+            cases.append({"D": D, "how": rng.choice(["abs", "abs", "bare", "dot", "sub"]), "printed_then_changed": rng.random() < 0.25})
         return cases
 
     def run(self, case):
         ds = Dataset.from_raw_list([[set(b) for b in r] for r in case["D"]])
+        if case.get("printed_then_changed"):
+            # the dataset was printed (and written once) before it was modified in place: what is written afterwards must be what it is NOW
+            try:
+                str(ds), repr(ds), ds.description()
+                d0 = tempfile.mkdtemp(prefix="corankco_c18_")
+                ds.write(os.path.join(d0, "first.txt"))
+                shutil.rmtree(d0, ignore_errors=True)
+                univ = sorted(ds.universe, key=lambda e: str(e.value))
+                if len(univ) >= 2:
+                    ds.remove_elements({univ[0]})
+                ds.remove_empty_rankings()
+            except Exception:
+                pass
         lst = [listing(r) for r in ds.rankings]
         d = tempfile.mkdtemp(prefix="corankco_c18_")
         cwd = os.getcwd()
